@@ -21,6 +21,8 @@ def intrinsic(*keys):
 
 def install(ex):
     from . import strings  # noqa: registers the str/fmt models
+    from . import extern_models  # noqa
+    from . import harness  # noqa
     ex.intrinsics.update(REG)
 
 
@@ -516,6 +518,13 @@ def iter_next(ex, it):
         it = ex.concretize(it)
     if hasattr(it, 'next'):
         return it.next(ex)
+    if isinstance(it, Struct):
+        # a crate type implementing Iterator: run its MIR `next` on a temporary cell
+        r = ex.tmp_cell(it)
+        item = ex.call_path('<%s as Iterator>::next' % it.ty, [r])
+        ni = ex.read_ref(r)
+        del ex.roots[r.local]
+        return item, ni
     raise Unsupported('next() on %r' % type(it))
 
 
@@ -862,3 +871,93 @@ def must_use(ex, args):
 @intrinsic('Clone::clone')
 def clone(ex, args):
     return ex.deref(args[0])
+
+
+# ------------------------------------------------------------------ VecDeque / Vec<T> structural operations
+
+@intrinsic('VecDeque::with_capacity', 'VecDeque::new')
+def vecdeque_new(ex, args):
+    return Seq((), 0, '')
+
+
+@intrinsic('VecDeque::pop_front')
+def vecdeque_pop_front(ex, args):
+    r = args[0]
+    s = ex.read_ref(r)
+    n = concrete_int(s.len)
+    if n is not None and not is_sym(s.len):
+        if n == 0:
+            return NONE
+        ex.write_ref(r, Seq(s.elems[1:n], n - 1, s.ety))
+        return some(s.elems[0])
+    nonempty = Not(eq_any(s.len, 0, 64))
+    first = s.elems[0] if s.cap else UNINIT
+    rest = Seq(s.elems[1:] + (s.elems[-1],) if s.cap else (), ite(nonempty, sub64(s.len, 1), 0, 64), s.ety)
+    ex.write_ref(r, rest)
+    return option(nonempty, first)
+
+
+@intrinsic('VecDeque::pop_back', 'Vec::pop')
+def vec_pop(ex, args):
+    r = args[0]
+    s = ex.read_ref(r)
+    n = ex.concretize_int(s.len, 0, s.cap, 'length')
+    if n == 0:
+        return NONE
+    ex.write_ref(r, Seq(s.elems[:n - 1], n - 1, s.ety))
+    return some(s.elems[n - 1])
+
+
+@intrinsic('Into::into', 'Vec::from', 'VecDeque::into')
+def into_identity(ex, args):
+    return args[0]
+
+
+@intrinsic('Vec::drain')
+def vec_drain(ex, args):
+    r, rng = args
+    s = ex.read_ref(r)
+    start, end = _range_parts(rng)
+    if end is None:
+        end = s.len
+    ex.panic_if(Not(ule(start, end)), 'drain: start > end')
+    ex.panic_if(Not(ule(end, s.len)), 'drain: end > len')
+    n = ex.concretize_int(s.len, 0, s.cap, 'vector length')
+    st = ex.concretize_int(start, 0, n, 'drain start')
+    en = ex.concretize_int(end, st, n, 'drain end')
+    removed = s.elems[st:en]
+    ex.write_ref(r, Seq(s.elems[:st] + s.elems[en:n], n - (en - st), s.ety))
+    return SliceIter(Seq(removed, len(removed), s.ety))
+
+
+@intrinsic('Vec::insert')
+def vec_insert(ex, args):
+    r, idx, v = args
+    s = ex.read_ref(r)
+    ex.panic_if(Not(ule(idx, s.len)), 'insert: index > len')
+    n = ex.concretize_int(s.len, 0, s.cap, 'vector length')
+    i = ex.concretize_int(idx, 0, n, 'insert index')
+    ex.write_ref(r, Seq(s.elems[:i] + (v,) + s.elems[i:n], n + 1, s.ety))
+    return UNIT
+
+
+@intrinsic('Vec::remove')
+def vec_remove(ex, args):
+    r, idx = args
+    s = ex.read_ref(r)
+    ex.panic_if(Not(ult(idx, s.len)), 'remove: index out of bounds')
+    n = ex.concretize_int(s.len, 0, s.cap, 'vector length')
+    i = ex.concretize_int(idx, 0, n - 1, 'remove index')
+    ex.write_ref(r, Seq(s.elems[:i] + s.elems[i + 1:n], n - 1, s.ety))
+    return s.elems[i]
+
+
+@intrinsic('Iterator::for_each')
+def it_for_each(ex, args):
+    it, f = args
+    while True:
+        item, it = iter_next(ex, it)
+        p = opt_is_some(ex, item)
+        if p is None:
+            return UNIT
+        ex.call_value(f, [p[0]])
